@@ -18,12 +18,12 @@ RULE = "SD.f-fixed-extent-array-access"
 LAST_PROG = {}
 SELFTEST = os.path.join(VERIF, "selftest", "fx_positive.c")
 EXPECT = {"bad_carry": "violation", "good_carry": "inside", "bad_fill": "violation", "good_fill": "inside",
-          "sentinel": "undecided"}
+          "sentinel": "undecided", "bad_wrap_len": "violation", "good_wrap_len": "inside"}
 
 
 def _verdicts(A):
     return {k: ("violation" if "violation" in vs else "undecided" if "undecided" in vs else "inside")
-            for k, vs in A.acc.items() if k[0] != "#definite"}
+            for k, vs in A.acc.items() if k[0] not in ("#definite", "#wrapped")}
 
 
 def _definite(A):
@@ -47,6 +47,7 @@ def struct_pointers(f, stt, prog, skip=()):
 
 
 DOC_EXT = {}
+WRAP_SITES = set()     # statements `x = P - k` on an unvalidated documented length P that were split into P >= k / P < k
 
 
 def doc_extents(f, types):
@@ -79,6 +80,8 @@ def analyse(f, types, state_ids=None, inv=None, post=None, inv_hard=None, post_h
     inv_hard = {k: v for k, v in (inv_hard or {}).items() if k != "#facts"}
     DS = fx.FxAnalyzer(f, types, soft=True, entry_fields=inv, callee_post=post, entry_facts=fs_, **kw).run()
     ds = _verdicts(DS)
+    for line, pn, kc in sorted(DS.wrap_sites):
+        WRAP_SITES.add("%s:%d %s: %s - %d" % (ir.relpath(f.file), line, f.name, pn, kc))
     out = {}
     if all(v == "inside" for v in ds.values()):
         return {k: ("inside", None) for k in ds}, DS.truncated
@@ -86,7 +89,7 @@ def analyse(f, types, state_ids=None, inv=None, post=None, inv_hard=None, post_h
     KH = fx.FxAnalyzer(f, types, soft=False, entry_fields=inv_hard, callee_post=post_hard, entry_facts=fh_, **kw).run_classic()
     KS = fx.FxAnalyzer(f, types, soft=True, entry_fields=inv, callee_post=post, entry_facts=fs_, **kw).run_classic()
     dh, kh, ks = _verdicts(DH), _verdicts(KH), _verdicts(KS)
-    dfn = _definite(DH)
+    dfn = _definite(DH) | {k[1:] for k in DH.acc if k[0] == "#wrapped"}
     for k in ds:
         if ds[k] == "inside" or ks.get(k) == "inside":
             out[k] = ("inside", None)
@@ -224,12 +227,16 @@ def selftest(config):
     prog = ir.Program(config, units=[SELFTEST], tag=config + "-fxself")
     types = _types(prog)
     seen = {}
+    saved = dict(DOC_EXT)
+    DOC_EXT.update({"bad_wrap_len": {"in": {"in_len": 1}}, "good_wrap_len": {"in": {"in_len": 1}}})
     for f in prog.all_funcs():
         if f.body is None or f.name not in EXPECT:
             continue
         r, _ = analyse(f, types)
         vs = [v for v, _ in r.values()]
         seen[f.name] = "violation" if "violation" in vs else "undecided" if "undecided" in vs else "inside" if vs else "none"
+    DOC_EXT.clear()
+    DOC_EXT.update(saved)
     for name, want in EXPECT.items():
         if seen.get(name) != want:
             raise AnalysisBroken("SD.f self-test: %s is %s, expected %s" % (name, seen.get(name), want))
@@ -297,6 +304,7 @@ def check_fixed_extent(res, config, floor):
     res.floor("SD.f access sites proved inside [%s]" % config, inside, floor)
     res.coverage.setdefault("fixed_extent", {})[config] = {
         "functions_with_accesses": funcs, "sites_inside": inside, "sites_not_decided": undecided,
-        "selftest_functions": n_self, "not_decided_examples": und_sites[:200],
+        "selftest_functions": n_self, "unvalidated_length_subtractions_split": sorted(x for x in WRAP_SITES if "selftest" not in x),
+        "not_decided_examples": und_sites[:200],
         "state_families": len(fams), "state_field_invariants": invs}
     return inside, undecided
